@@ -142,6 +142,9 @@ let dispatch toks =
             hd_res (lib_hdkey_from_wif fold wifcheck oc text (oname hint) (otf ms) (tf comp))
         | _ -> "BADREQ" in
       (match req with
+       (* public-form round trips over points with short coordinates and BIP38 round trips through every entry point are
+          judged by the property-level oracle only (the model is a codec over bytes: no curve arithmetic, no scrypt/AES) *)
+       | "pubrt" :: _ | "bip38rt" :: _ -> "UNMODELLED"
        | ["gkf"; k; ip] -> gkf (key_of_tok k) (otf ip)
        | ["wps"; p; wt; ms; nw] ->
            let l = lib_wif_prefix_search (bytes_of_hex p) (oname wt) (otf ms) (oname nw) in
